@@ -17,11 +17,11 @@ import threading
 from engine import tlc, core, tracecheck
 
 ADAPTER = "harness.adapters_c01:Adapter"
-ACTIONS = ["Choose", "Encode", "Modify", "Decode", "Reencode"]
-RUNS = {"quick": ["q_dev", "q_dev_stats", "q_nx", "q_match", "q_uniform", "q_shapes", "q_nxm", "q_mod"],
+ACTIONS = ["Choose", "Receive", "Encode", "Modify", "Decode", "Reencode"]
+RUNS = {"quick": ["q_dev", "q_dev_stats", "q_nx", "q_match", "q_uniform", "q_shapes", "q_nxm", "q_recv", "q_mod"],
         # (longest first: the runs share the machine through a semaphore)
         "thorough": ["t_long", "t_match_other", "t_shapes", "t_match_fm", "q_dev", "q_dev_stats", "q_nx", "t_nx", "q_match",
-                     "q_uniform", "t_pairs", "q_nxm", "q_shapes", "q_mod"]}
+                     "q_uniform", "t_pairs", "q_nxm", "t_recv", "q_shapes", "q_mod"]}
 # the recursive codec operators of the spec need a deeper Java stack than the default on long payloads / lists
 JENV = {"JAVA_TOOL_OPTIONS": "-Xss1g"}
 JUNK = {0: [], 8: [(i * 37 + 11) % 256 for i in range(1, 9)], 24: [(i * 37 + 11) % 256 for i in range(1, 25)]}
@@ -209,7 +209,8 @@ def _rb_actions(acts):
   for a in acts:
     k, f = a["k"], a["f"]
     if k == "a_output":
-      out += rb.a_output(_i(f["port"]), _i(f["max_len"]))
+      # NormalizeMaxLen (OFWire.tla PackCanon): pack() keeps max_len only towards the controller
+      out += rb.a_output(_i(f["port"]), _i(f["max_len"]) if _i(f["port"]) == rb.OFPP_CONTROLLER else 0)
     elif k == "a_set_vlan_vid":
       out += rb.a_vlan_vid(_i(f["vlan_vid"]))
     elif k == "a_set_vlan_pcp":
@@ -408,8 +409,10 @@ def drive(item):
         why = "" if wf else "construct"
       elif a in ("Encode", "Reencode"):
         wf = isinstance(obs.get("wire"), list) and isinstance(obs.get("len"), int)
-        obs = {"len": obs.get("len"), "wire": obs.get("wire")}
         why = "" if wf else "not-bytes"
+        if wf and a == "Reencode" and obs.get("rt") is not True:
+          wf, why = False, "redecode=%s" % (obs.get("rt"),)
+        obs = {"len": obs.get("len"), "wire": obs.get("wire")}
       else:
         wf = isinstance(obs.get("eq"), bool) and isinstance(obs.get("consumed"), int) and not c01_lib.has_bad(obs.get("val"))
         why = "" if wf else ("eq=%s" % obs.get("eq") if not isinstance(obs.get("eq"), bool) else "value")
